@@ -191,9 +191,34 @@ def c11(ctx):
                                                   "for sockets without IP_HDRINCL the simulator synthesises the IP/UDP/TCP header a Linux kernel would emit from the recorded socket options"])
 
 
-PROPS = {"C02": c02, "C11": c11, "C05": c05, "C15": c15, "C19": c19, "C07": c07, "C01": c01, "C03": c03, "C06": c06, "C08": c08, "C09": c09, "C10": c10}
+PKT = "mon/MonPacket.tla"
 
-MONITOR_OF = {"C02": (LOOP, "MonLoop_C02.cfg"), "C11": (LOOP, "MonLoop_C11.cfg"), "C05": (STATE, "MonState_C05.cfg"), "C15": (STATE, "MonState_C15.cfg"), "C19": (STATE, "MonState_C19.cfg"), "C07": (LOOP, "MonLoop_C07.cfg"), "C01": (LOOP, "MonLoop_C01.cfg"), "C03": (LOOP, "MonLoop_C03.cfg"), "C06": (LOOP, "MonLoop_C06.cfg"),
+
+def c12(ctx):
+    q = ctx.quick()
+    ctx.model("mc/MC_Packet.tla", "MC_Packet_q.cfg" if q else "MC_Packet.cfg", workers=12, timeout=3000)
+    ctx.sim("fields" if q else "fields16", 40 if q else 400, PKT, "MonPacket_C12.cfg", subcmd="packet", batch=100000)
+    ctx.write_evidence("model_checking", "model: MC_Packet - the RFC layout tables tile each fixed header without overlap and SetInt satisfies read-after-write / idempotence / frame for every value; "
+                       "implementation: distinct (packet type, field) pairs, each written and read back through the real view over random non-zero buffers for every value up to 8 bits (incl. values wider than the field), boundary + seeded values for wider fields (all 65536 values of 16-bit fields in the thorough tier), plus constructors at every length around the minimum; TLC compares the resulting header with Layout!SetInt",
+                       assumptions=["the RFC field positions are the table in spec/Layout.tla (transcribed from RFC 791, 8200, 768, 9293, 792, 4443, 4884, 4950)",
+                                    "ICMPv6 DestinationUnreachable.next_hop_mtu is not an RFC field; its position is taken as implemented"])
+
+
+def c13(ctx):
+    q = ctx.quick()
+    ctx.model("mc/MC_Packet.tla", "MC_Packet_q.cfg" if q else "MC_Packet.cfg", workers=12, timeout=3000)
+    ctx.sim("ck", 300 if q else 6000, PKT, "MonPacket_C13.cfg", subcmd="packet", batch=100000)
+    ctx.sim("paris" if q else "paris_all", 1, PKT, "MonPacket_C13.cfg", subcmd="packet", seed_off=1, batch=100000)
+    ctx.sim("codec", 280 if q else 3000, LOOP, "MonLoop_C11.cfg", seed_off=2, nontrivial=lambda s: s.get("wire", 0) > 0)
+    ctx.write_evidence("model_checking", "model: MC_Packet - the Paris swap (checksum field := sequence, payload := displaced checksum) verifies for every sequence in the set x port pairs; "
+                       "implementation: distinct checksum inputs (kind x payload length 0..1024 odd/even x random / all-ones / carry-maximising / zero contents x address pairs) whose words TLC sums with Checksum!Rfc1071, plus Paris datagrams captured from the real Channel for every sequence in the set x both families x 3 port pairs",
+                       assumptions=["the words handed to TLA are the pseudo header as the RFCs define it followed by the datagram with a zeroed checksum field",
+                                    "for Paris datagrams outside the sampled subset the verification flag comes from the independent decoder, not from TLA"])
+
+
+PROPS = {"C12": c12, "C13": c13, "C02": c02, "C11": c11, "C05": c05, "C15": c15, "C19": c19, "C07": c07, "C01": c01, "C03": c03, "C06": c06, "C08": c08, "C09": c09, "C10": c10}
+
+MONITOR_OF = {"C12": (PKT, "MonPacket_C12.cfg"), "C13": (PKT, "MonPacket_C13.cfg"), "C02": (LOOP, "MonLoop_C02.cfg"), "C11": (LOOP, "MonLoop_C11.cfg"), "C05": (STATE, "MonState_C05.cfg"), "C15": (STATE, "MonState_C15.cfg"), "C19": (STATE, "MonState_C19.cfg"), "C07": (LOOP, "MonLoop_C07.cfg"), "C01": (LOOP, "MonLoop_C01.cfg"), "C03": (LOOP, "MonLoop_C03.cfg"), "C06": (LOOP, "MonLoop_C06.cfg"),
               "C08": (LOOP, "MonLoop_C08.cfg"), "C09": (LOOP, "MonLoop_C09.cfg"), "C10": (LOOP, "MonLoop_C10.cfg")}
 
 
